@@ -87,6 +87,9 @@ struct Sys {
     /// model and real code disagree in a way the selected property does not judge
     diverged: bool,
     in_finish: bool,
+    /// end of a C01 execution: samples of publishers that left before the subscriber opened the
+    /// connection are now demanded (during the exploration both behaviours are accepted)
+    strict_lost: bool,
 }
 
 impl Sys {
@@ -201,9 +204,13 @@ impl H {
     fn build(&self, cfg: &Cfg, control: bool) -> Result<Sys, Fail> {
         set_log_level(LogLevel::Fatal);
         let real = new_world(cfg).map_err(|e| Fail::new("setup", "new_sys", e))?;
-        let mut s = Sys { cfg: cfg.clone(), mode: mode(), control, real: Some(real), m: Model::new(cfg), ops: Vec::new(), diverged: false, in_finish: false };
+        let mut s = Sys { cfg: cfg.clone(), mode: mode(), control, real: Some(real), m: Model::new(cfg), ops: Vec::new(), diverged: false, in_finish: false, strict_lost: false };
         for op in start_ops(cfg) {
+            let t = std::time::Instant::now();
             self.step(&mut s, &op)?;
+            if std::env::var("HPS_VERBOSE2").is_ok() {
+                println!("      start {op:?}: {:?}", t.elapsed());
+            }
         }
         // the creates of the prefix do not count against the per-execution cap
         s.m.creates_pub = 0;
@@ -386,7 +393,7 @@ impl H {
         let keep = s.mode == Mode::C01;
         let cfg = s.cfg.clone();
         s.m.sub_update(j, keep);
-        let exp = s.m.recv_expect(&cfg, j, keep);
+        let exp = s.m.recv_expect(&cfg, j, s.strict_lost);
         let r = s.real().receive(j);
         match r {
             Err(ReceiveError::ExceedsMaxBorrows) => {
@@ -451,7 +458,8 @@ impl H {
         if rv.words != info.words || rv.user_header != info.uh {
             flag!(self, s, Own::C01, "c01-content", "receive: payload differs from what was written", "sample #{seq}: received {:x?} / user header {:x}, written {:x?} / {:x}", rv.words, rv.user_header, info.words, info.uh);
         }
-        let allowed = matches!(exp, RecvExpect::Some(cand) if cand.contains(&k));
+        let never_opened = !c.sub_side && !c.pub_alive && c.borrowed < s.cfg.bor;
+        let allowed = never_opened || matches!(exp, RecvExpect::Some(cand) if cand.contains(&k));
         if !allowed {
             flag!(self, s, Own::C08, "c08-limit-error", "Receive beyond subscriber_max_borrowed_samples accepted", "receive handed out a sample of a connection that already has {} borrowed samples (limit {})", c.borrowed, s.cfg.bor);
         }
@@ -466,14 +474,12 @@ impl H {
     fn check_has_samples(&self, s: &mut Sys, j: usize, what: &str) -> Result<(), Fail> {
         let keep = s.mode == Mode::C01;
         s.m.sub_update(j, keep);
-        let want = s.m.has_samples(j, keep);
+        let want = s.m.has_samples(j, false);
+        let entitled = s.m.has_samples(j, true);
         match s.real().has_samples(j) {
-            Ok(got) if got == want => Ok(()),
+            Ok(got) if got == want || (got && entitled) => Ok(()),
             Ok(got) => {
-                let lost = want && !s.m.has_samples(j, false);
-                let site = if lost { "publisher dropped before the subscriber updated its connections".to_string() } else { format!("has_samples {what}") };
-                let tag = if lost { "c01-lost-sample" } else { "c01-has-samples" };
-                flag!(self, s, Own::C01, tag, site, "has_samples() is {got}, the model has {want}");
+                flag!(self, s, Own::C01, "c01-has-samples", format!("has_samples {what}"), "has_samples() is {got}, the model has {want}");
             }
             Err(e) => flag!(self, s, Own::Any, "unexpected-error", "has_samples", "has_samples failed with {e:?}"),
         }
@@ -611,7 +617,7 @@ impl H {
             match s.mode {
                 Mode::C01 => {}
                 Mode::C02 => self.post_c02(s)?,
-                Mode::C08 => self.post_c08(s)?,
+                Mode::C08 => self.post_c08(s, matches!(op, Op::CreatePub(_) | Op::DropPub(_) | Op::CreateSub(_) | Op::DropSub(_)))?,
             }
         }
         s.m.gc_seqs();
@@ -703,7 +709,7 @@ impl H {
     // -------------------------------------------------------------------------------------
     // C08: sufficiency probe and one-too-many probes
 
-    fn post_c08(&self, s: &mut Sys) -> Result<(), Fail> {
+    fn post_c08(&self, s: &mut Sys, ports_changed: bool) -> Result<(), Fail> {
         for i in s.m.alive_pubs() {
             self.loan_probe(s, i, "after every step")?;
             if s.diverged {
@@ -722,37 +728,22 @@ impl H {
                 flag!(self, s, Own::C08, "c08-limit-error", "CreateSub beyond max_subscribers", "returned {:?}, documented: ExceedsMaxSupportedSubscribers", r);
             }
         }
-        let too_big = s.cfg.buf + 1;
-        let r = s.real().create_sub_extra(Some(too_big), None);
-        if r != Err(SubscriberCreateError::BufferSizeExceedsMaxSupportedBufferSizeOfService) {
-            flag!(self, s, Own::C08, "c08-limit-error", "CreateSub with buffer beyond subscriber_max_buffer_size", "returned {:?}, documented: BufferSizeExceedsMaxSupportedBufferSizeOfService", r);
+        if ports_changed {
+            // requests beyond the service's static limits (independent of the delivery state)
+            let too_big = s.cfg.buf + 1;
+            let r = s.real().create_sub_extra(Some(too_big), None);
+            if r != Err(SubscriberCreateError::BufferSizeExceedsMaxSupportedBufferSizeOfService) {
+                flag!(self, s, Own::C08, "c08-limit-error", "CreateSub with buffer beyond subscriber_max_buffer_size", "returned {:?}, documented: BufferSizeExceedsMaxSupportedBufferSizeOfService", r);
+            }
+            let too_many = s.cfg.hist + 1;
+            let r = s.real().create_sub_extra(None, Some(too_many));
+            if r != Err(SubscriberCreateError::HistoryRequestExceedsHistorySizeOfService) {
+                flag!(self, s, Own::C08, "c08-limit-error", "CreateSub with history request beyond history_size", "returned {:?}, documented: HistoryRequestExceedsHistorySizeOfService", r);
+            }
         }
-        let too_many = s.cfg.hist + 1;
-        let r = s.real().create_sub_extra(None, Some(too_many));
-        if r != Err(SubscriberCreateError::HistoryRequestExceedsHistorySizeOfService) {
-            flag!(self, s, Own::C08, "c08-limit-error", "CreateSub with history request beyond history_size", "returned {:?}, documented: HistoryRequestExceedsHistorySizeOfService", r);
-        }
-        // receive with the documented number of borrowed samples already held
-        for j in s.m.alive_subs() {
-            if s.m.total_held(j) < s.cfg.bor {
-                continue;
-            }
-            s.m.sub_update(j, false);
-            if !s.m.has_samples(j, false) {
-                continue;
-            }
-            let per_connection_room = matches!(s.m.recv_expect(&s.cfg, j, false), RecvExpect::Some(_));
-            match s.real().receive(j) {
-                Err(ReceiveError::ExceedsMaxBorrows) => {}
-                other => {
-                    let site = if per_connection_room {
-                        "Receive beyond subscriber_max_borrowed_samples accepted: samples of another publisher pending"
-                    } else {
-                        "Receive beyond subscriber_max_borrowed_samples accepted"
-                    };
-                    flag!(self, s, Own::C08, "c08-limit-error", site, "the subscriber holds {} samples (subscriber_max_borrowed_samples = {}), samples are pending, receive returned {:?}; documented: ExceedsMaxBorrows", s.m.total_held(j), s.cfg.bor, other.map(|o| o.map(|r| r.words)));
-                }
-            }
+        self.borrow_probe(s, false)?;
+        if s.diverged {
+            return Ok(());
         }
         // no side effect visible in the cheap observables
         for j in s.m.alive_subs() {
@@ -771,6 +762,64 @@ impl H {
             self.loan_probe(s, i, "after the rejected calls")?;
             if s.diverged {
                 return Ok(());
+            }
+        }
+        Ok(())
+    }
+
+    /// End of a C01 execution: whatever was sent to a subscriber while it was registered and is not
+    /// covered by the documented loss must be receivable now, also when the publisher is gone.
+    fn demand_entitled(&self, s: &mut Sys) -> Result<(), Fail> {
+        s.strict_lost = true;
+        for j in s.m.alive_subs() {
+            let sinst = s.m.s(j).inst;
+            if !s.m.conns.iter().any(|c| c.sub_inst == sinst && !c.sub_side && !c.pub_alive && !c.fifo.is_empty()) {
+                continue;
+            }
+            while !s.m.s(j).held.is_empty() {
+                self.do_drop_sample(s, j, 0)?;
+            }
+            for _ in 0..64 {
+                if s.m.recv_expect(&s.cfg, j, true) == RecvExpect::None {
+                    break;
+                }
+                self.do_receive(s, j)?;
+                if s.diverged || s.m.s(j).held.is_empty() {
+                    break;
+                }
+                self.do_drop_sample(s, j, 0)?;
+            }
+        }
+        Ok(())
+    }
+
+    /// Receive with the documented number of borrowed samples already held and samples pending must
+    /// be rejected with ExceedsMaxBorrows. A call that is NOT rejected consumes a sample, so the probe
+    /// is only free of side effects where the model is sure of the rejection (every connection with
+    /// data is at the limit); the other situations are probed at the end of the execution (`last`).
+    fn borrow_probe(&self, s: &mut Sys, last: bool) -> Result<(), Fail> {
+        for j in s.m.alive_subs() {
+            if s.m.total_held(j) < s.cfg.bor {
+                continue;
+            }
+            s.m.sub_update(j, false);
+            if !s.m.has_samples(j, false) {
+                continue;
+            }
+            let per_connection_room = matches!(s.m.recv_expect(&s.cfg, j, false), RecvExpect::Some(_));
+            if per_connection_room && !last {
+                continue;
+            }
+            match s.real().receive(j) {
+                Err(ReceiveError::ExceedsMaxBorrows) => {}
+                other => {
+                    let site = if per_connection_room {
+                        "Receive beyond subscriber_max_borrowed_samples accepted: samples of another publisher pending"
+                    } else {
+                        "Receive beyond subscriber_max_borrowed_samples accepted"
+                    };
+                    flag!(self, s, Own::C08, "c08-limit-error", site, "the subscriber holds {} samples (subscriber_max_borrowed_samples = {}), samples are pending, receive returned {:?}; documented: ExceedsMaxBorrows", s.m.total_held(j), s.cfg.bor, other.map(|o| o.map(|r| r.words.len())));
+                }
             }
         }
         Ok(())
@@ -1020,7 +1069,13 @@ impl Harness for H {
     fn finish(&self, mut s: Sys) -> Result<(), Fail> {
         s.in_finish = true;
         let mut verdict = Ok(());
-        if !s.diverged && !s.control && s.mode != Mode::C01 {
+        if !s.diverged && !s.control && s.mode == Mode::C08 {
+            verdict = self.borrow_probe(&mut s, true);
+        }
+        if !s.diverged && !s.control && s.mode == Mode::C01 {
+            verdict = self.demand_entitled(&mut s);
+        }
+        if verdict.is_ok() && !s.diverged && !s.control && s.mode != Mode::C01 {
             verdict = self.saturate(&mut s);
         }
         let r = s.real.take().expect("finish twice").finish();
@@ -1048,6 +1103,13 @@ impl Harness for H {
 }
 
 fn main() {
+    // A Subscriber allocates ~0.5 MB; with the default malloc thresholds every port creation maps
+    // and unmaps fresh pages, which costs milliseconds on a loaded machine. Keep freed memory.
+    unsafe {
+        libc::mallopt(libc::M_MMAP_THRESHOLD, 256 << 20);
+        libc::mallopt(libc::M_TRIM_THRESHOLD, 1 << 30);
+        libc::mallopt(libc::M_TOP_PAD, 64 << 20);
+    }
     if let Ok(n) = std::env::var("HPS_BENCH") {
         // development aid: cost of executions in one process (cfg index, op-less executions)
         let n: usize = n.parse().unwrap();
@@ -1056,7 +1118,11 @@ fn main() {
         for round in 0..5 {
             let t = std::time::Instant::now();
             for _ in 0..n {
+                let t0 = std::time::Instant::now();
                 let mut s = H.new_sys(&cfg).unwrap();
+                if round == 4 && std::env::var("HPS_VERBOSE").is_ok() {
+                    println!("   new_sys: {:?}", t0.elapsed());
+                }
                 let pick: Vec<usize> = std::env::var("HPS_PICK").unwrap_or_default().split(',').filter_map(|x| x.parse().ok()).collect();
                 for k in pick.iter() {
                     let en = H.enabled(&s);
@@ -1070,7 +1136,11 @@ fn main() {
                         println!("   {op:?}: {:?}", t1.elapsed());
                     }
                 }
+                let t2 = std::time::Instant::now();
                 H.finish(s).unwrap();
+                if round == 4 && std::env::var("HPS_VERBOSE").is_ok() {
+                    println!("   finish: {:?}", t2.elapsed());
+                }
             }
             println!("round {round}: {:?} per execution", t.elapsed() / n as u32);
         }
